@@ -55,6 +55,7 @@ type Discharger struct {
 	Thorough  bool
 	Workers   int
 	Dir       string // scratch dir for failed queries
+	NoRace    bool   // probes: one solver, no retry
 	mu        sync.Mutex
 	Stats     SolveStats
 	seen      map[[32]byte]bool
@@ -203,6 +204,9 @@ func (d *Discharger) runScript(u *UnitResult, ps *PathScript, sv []Solver, scrip
 	d.mu.Unlock()
 	pre := header(u.BV) + u.Preamble + strings.Join(u.Decls, "\n") + "\n"
 	for i, in := range insts {
+		if d.NoRace {
+			continue
+		}
 		if in.Status == "unsat" && !d.Thorough {
 			d.mu.Lock()
 			d.Stats.Wins[primary.Name]++
